@@ -153,12 +153,21 @@ func directedPlan(r *core.Rand, sc *Scenario) (nclients, total int) {
 	k.OpTimeoutTicks = 25
 	k.MaxSteps = 3500
 	sc.Faults.Kinds = nil
-	sc.Faults.Directed = "ack-then-crash"
-	if r.Bool(0.25) {
-		sc.Faults.Directed = "vote-then-crash"
-	}
+	sc.Faults.Directed = pick(r, []string{"ack-then-crash", "ack-then-crash", "ack-then-crash", "vote-then-crash", "vote-then-torn-crash", "vote-then-torn-crash"})
 	sc.Variant += "+" + sc.Faults.Directed
 	return 3 + r.Intn(2), 60
+}
+
+// directedKnobs: what a plan needs from the workload and the disk.
+func directedKnobs(sc *Scenario) (pad int) {
+	if sc.Faults.Directed == "vote-then-torn-crash" {
+		// a WAL record must span several sectors to be torn: large values, and
+		// segments large enough not to be cut at every other command
+		sc.Knobs.SegmentKiB = 64
+		sc.Knobs.SectorLoss = ""
+		return 700
+	}
+	return 0
 }
 
 func pickNodes(r *core.Rand) int {
@@ -181,10 +190,14 @@ type wlGen struct {
 	sets    []string
 	hashes  []string
 	seq     int
+	pad     int
 }
 
 func (g *wlGen) uniq(ci int) string {
 	g.seq++
+	if g.pad > 0 {
+		return fmt.Sprintf("c%dv%d-", ci, g.seq) + strings.Repeat("x", g.pad+g.r.Intn(300))
+	}
 	return fmt.Sprintf("c%dv%d", ci, g.seq)
 }
 
@@ -252,8 +265,8 @@ func (g *wlGen) cmd(ci int) []B {
 	return bs("get", "s0")
 }
 
-func genWorkload(r *core.Rand, av avoidSet, nclients, totalOps int, listsOK bool) []ClientProg {
-	g := &wlGen{r: r}
+func genWorkload(r *core.Rand, av avoidSet, nclients, totalOps int, listsOK bool, pad int) []ClientProg {
+	g := &wlGen{r: r, pad: pad}
 	// swarm: which families this run uses
 	fam := r.Intn(1 << 5)
 	if fam == 0 {
@@ -430,7 +443,7 @@ func genC07(rng *core.Rand, env *core.Env, run int) *Scenario {
 			sc.Faults.Directed = d
 		}
 	}
-	sc.Clients = genWorkload(r, av, nclients, total, true)
+	sc.Clients = genWorkload(r, av, nclients, total, true, directedKnobs(sc))
 	prescreen(sc)
 	return sc
 }
@@ -474,7 +487,7 @@ func genC08(rng *core.Rand, env *core.Env, run int) *Scenario {
 			sc.Faults.Directed = d
 		}
 	}
-	sc.Clients = genWorkload(r, av, nclients, total, true)
+	sc.Clients = genWorkload(r, av, nclients, total, true, directedKnobs(sc))
 	prescreen(sc)
 	return sc
 }
